@@ -304,6 +304,10 @@ def validate(cls, request, resp):
                 return "malformed HTTP header line %r" % h[:60]
         if request.startswith(b"HEAD ") and body:
             return "HEAD response carries a body"
+        m2 = _HTTP_STATUS.match(body)
+        if m2 and b"\r\n\r\n" in body and all(_HTTP_HEADER.match(h) for h in
+                                              body.partition(b"\r\n\r\n")[0].split(b"\r\n")[1:]):
+            return "two HTTP responses: a second status line and header block follow the first"
         return None
     if fam in ("gemini", "spartan"):
         m = (_GEMINI_HEAD if fam == "gemini" else _SPARTAN_HEAD).match(resp)
